@@ -392,7 +392,9 @@ impl Write for alloc::string::String {}
 
 impl<'a> Write for fmt::Formatter<'a> {
     fn write_hole_value(&mut self, _: &str, value: Value) -> fmt::Result {
-        fmt::Display::fmt(&value, self)
+        // Don't pass `self` to the value directly; that would apply any
+        // flags the caller is formatting the template with to each hole
+        self.write_fmt(format_args!("{}", value))
     }
 
     fn write_hole_fmt(&mut self, _: &str, value: Value, formatter: Formatter) -> fmt::Result {
